@@ -35,8 +35,10 @@ theorem enq_uids_increasing :
 
 /-- ... and each handler receives entries in that order, none twice.
     FULL STATEMENT (false of the MODEL, not of the code: `ProofsObs.order_at_most_once_false` exhibits a
-    client that calls `start()` twice — the model then spawns two dispatcher threads, whereas a Python
-    thread cannot be started twice; and a script of ~2000 calls exhausts the model's step fuel):
+    pair of clients that call `start()` concurrently — the second passes the started-already guard before the
+    first has started the dispatcher thread, and the model then spawns two dispatcher threads, whereas
+    `Thread.start` serialises on its `_started` flag; a second `start()` after the first has returned
+    raises RuntimeError in model and code alike; and a script of ~2000 calls exhausts the model's step fuel):
       `∀ h, (callUids h (run (init clients cbs emit) sched).hist).Pairwise (· < ·)`
     PROVED PART: for every run in which every step completes within the model's fuel (`runOk`, an
     executable predicate that the driver evaluates on every replayed run) and `start` spawned at most
